@@ -10,6 +10,7 @@ import (
 	"strings"
 	"sync"
 	"sync/atomic"
+	"syscall"
 	"time"
 
 	"github.com/samsarahq/thunder/verifharness/vlib"
@@ -97,13 +98,42 @@ func (s callStatus) String() string {
 	return [...]string{"returned", "panicked", "hung", "undecided"}[s]
 }
 
+func processCPU() time.Duration {
+	var ru syscall.Rusage
+	if err := syscall.Getrusage(syscall.RUSAGE_SELF, &ru); err != nil {
+		return 0
+	}
+	return time.Duration(ru.Utime.Nano() + ru.Stime.Nano())
+}
+
+// anyRunnable reports whether a goroutine with a thunder frame (outside the
+// baseline) is running or runnable, i.e. not parked: the system is then not
+// quiescent, however long nothing observable happened (it may be starved of
+// CPU, or spinning).
+func anyRunnable(base []string) bool {
+	for _, g := range vlib.ThunderGoroutines(base...) {
+		head := strings.SplitN(g, "\n", 2)[0]
+		if strings.Contains(head, "[running") || strings.Contains(head, "[runnable") {
+			return true
+		}
+	}
+	return false
+}
+
 // callGuarded runs f on its own goroutine behind a recover wrapper and waits
 // for it with the stuck-versus-slow classifier. activity is a monotone
-// counter of everything that moves in the scenario.
-func callGuarded(target string, activity func() int64, soft, hard time.Duration, f func()) (callStatus, *panicRec) {
+// counter of everything that moves in the scenario. Verdicts:
+//   - callHung (parked): no activity over three samples and every goroutine
+//     with a thunder frame is parked;
+//   - callHung (spinning): the call has not returned although the process
+//     burnt more than cpuBudget of CPU time since it started (CPU time, not
+//     wall-clock time: a starved process does not accumulate it; 0 = no budget);
+//   - callUndecided: anything else at the hard deadline.
+func callGuarded(target string, activity func() int64, soft, hard, cpuBudget time.Duration, f func()) (callStatus, *panicRec) {
 	var done int32
 	var rec *panicRec
 	var mu sync.Mutex
+	cpu0 := processCPU()
 	go func() {
 		defer atomic.StoreInt32(&done, 1)
 		defer func() {
@@ -116,19 +146,39 @@ func callGuarded(target string, activity func() int64, soft, hard time.Duration,
 		}()
 		f()
 	}()
-	out := vlib.WaitCond(func() bool { return atomic.LoadInt32(&done) == 1 }, activity, soft, hard)
+	isDone := func() bool { return atomic.LoadInt32(&done) == 1 }
+	overBudget := func() bool { return cpuBudget > 0 && processCPU()-cpu0 > cpuBudget }
+	start := time.Now()
+	status := callUndecided
+	for {
+		left := hard - time.Since(start)
+		if left < time.Second {
+			left = time.Second
+		}
+		out := vlib.WaitCond(func() bool { return isDone() || overBudget() }, activity, soft, left)
+		soft = 0
+		if isDone() {
+			status = callReturned
+			break
+		}
+		if out == vlib.Reached { // CPU budget exhausted without returning
+			status = callHung
+			break
+		}
+		if out == vlib.QuiescentNot && !anyRunnable(nil) {
+			status = callHung
+			break
+		}
+		if time.Since(start) > hard {
+			break
+		}
+	}
 	mu.Lock()
 	defer mu.Unlock()
-	switch {
-	case out == vlib.Reached && rec != nil:
+	if status == callReturned && rec != nil {
 		return callPanicked, rec
-	case out == vlib.Reached:
-		return callReturned, nil
-	case out == vlib.QuiescentNot:
-		return callHung, nil
-	default:
-		return callUndecided, nil
 	}
+	return status, nil
 }
 
 var goroutineHeader = regexp.MustCompile(`(?m)^goroutine (\d+) \[`)
